@@ -11,6 +11,7 @@ import (
 	_ "net/http/pprof"
 	"os"
 	"os/signal"
+	"regexp"
 	"runtime"
 	"runtime/pprof"
 	"syscall"
@@ -67,9 +68,15 @@ func readConfigFile(config_file string) string {
 		log.Fatalf("Couldn't read config file %q: %s", config_file, err.Error())
 	}
 
-	return os.Expand(string(data), expandVars)
+	return configVars.ReplaceAllStringFunc(string(data), func(ref string) string {
+		return expandVars(strings.Trim(ref, "${}"))
+	})
 
 }
+
+// configVars matches references to the variables that may be used in the config file, as ${VAR} or $VAR.
+// Anything else that contains a '$' (e.g. $1 or ${1} in rewriter and aggregation templates) is left alone.
+var configVars = regexp.MustCompile(`\$\{(HOST|GRAFANA_NET_ADDR|GRAFANA_NET_API_KEY|GRAFANA_NET_USER_ID)\}|\$(HOST|GRAFANA_NET_ADDR|GRAFANA_NET_API_KEY|GRAFANA_NET_USER_ID)\b`)
 
 func expandVars(in string) (out string) {
 	switch in {
